@@ -14,8 +14,25 @@ impl<R: Read> FusedReader<R> {
     }
 
     #[allow(dead_code)]
-    pub fn into_inner(self) -> Option<R> {
-        self.inner
+    pub fn into_inner(mut self) -> Option<R> {
+        self.inner.take()
+    }
+}
+
+/// If the underlying reader has not reached EOF when the fused reader is
+/// dropped, what is left of it is read and thrown away, so that a body the
+/// application did not consume does not end up in front of the next request.
+impl<R: Read> Drop for FusedReader<R> {
+    fn drop(&mut self) {
+        if let Some(r) = self.inner.as_mut() {
+            let mut buf = [0u8; 4096];
+            loop {
+                match r.read(&mut buf) {
+                    Ok(0) | Err(_) => break,
+                    Ok(_) => (),
+                }
+            }
+        }
     }
 }
 
